@@ -96,6 +96,8 @@ func checkC06(c *core.Ctx) error {
 		nq, nd = 0, 200
 	}
 	u := engs.SelectUniverse(all, c.Quick(), c.Seed, nq, nd)
+	nfix := addFixtures(u)
+	c.Set("types_fixture_family", nfix)
 	devLimit(u)
 	r, _, err := exportCases(c, "main", u.IDs, u.Types, false)
 	if err != nil {
